@@ -20,6 +20,13 @@ cancelled inputs completing in index order with what their canceller produces (C
 success, or a failure).  The aggregate must have fired exactly when the spec says (checked after
 every harness step) and exactly once at the end.
 
+Input cancellers: none / do nothing (-> CancelledError), fire a success, fire a failure, RAISE (the
+input stays un-fired; the aggregate must carry on with the other inputs and nothing may come out of
+aggregate.cancel() - DeferredList documents "log and continue", the log event is counted), or fire
+ANOTHER un-fired input re-entrantly (that input completes first, inside the cancellation).  A race
+that is cancelled while an input survives its cancellation fires with CancelledError (it is itself a
+cancelled Deferred without a result).
+
 Guards: empty lists are not generated; inputs that were already fired when the aggregate was
 built are a tie - any of them may count as "first" (the code takes the lowest index); cancel() of
 an already fired input is not required (it is a no-op); for race what later callbacks on the inputs
@@ -35,9 +42,9 @@ RULE = ("exhaustive: every (kind, n, success/failure assignment, pre-fired subse
         "rest) for n = 1..5 (quick) / 1..6 (thorough) and the 11 kinds (DeferredList x 8 flag combinations, "
         "gatherResults x consumeErrors, race); for n <= 4 (quick) / 5 (thorough) each also with cancel() of the "
         "aggregate injected before every "
-        "firing step and after the last, for 3 input-canceller behaviours (none -> CancelledError, canceller "
-        "fires a success, canceller fires a failure); race additionally for each canceller behaviour without "
-        "injected cancellation.  Random: n <= 12 with per-input canceller behaviours and up to two cancellations. "
+        "firing step and after the last, for 5 input-canceller behaviours (none -> CancelledError, canceller "
+        "fires a success, fires a failure, raises, fires another un-fired input re-entrantly); race additionally "
+        "for each canceller behaviour without injected cancellation.  Random: n <= 16 with per-input canceller behaviours and up to two cancellations. "
         "A case is distinct by its full description; non-trivial = n >= 2.")
 ASSUMPTIONS = ["trusted base: the specification functions spec_dl/spec_gather/spec_race in this module",
                "cancel() calls are observed by a Deferred subclass overriding the public cancel()"]
@@ -45,12 +52,15 @@ SHARDS = {"quick": 4, "thorough": 16}
 FLOORS = {"aggregate_firings_checked": 5000, "step_checks": 20000, "later_callback_checks": 5000,
           "consumed_errors_seen_as_none": 500, "first_error_results": 500, "fire_on_one_callback_results": 500,
           "race_winner_results": 200, "race_failure_groups": 50, "race_stragglers_cancelled": 200,
-          "aggregate_cancellations_propagated": 1000, "canceller_success_after_decided": 50, "prefired_tie_cases": 50}
+          "aggregate_cancellations_propagated": 1000, "canceller_success_after_decided": 50, "prefired_tie_cases": 50,
+          "raising_cancellers_invoked": 2000, "canceller_exceptions_logged_by_deferredlist": 1000,
+          "cancellers_firing_another_input": 2000}
 READY = True
 
 DL_KINDS = [("dl", foc, foe, ce) for foc in (0, 1) for foe in (0, 1) for ce in (0, 1)]
 KINDS = DL_KINDS + [("gather", 0, 1, 0), ("gather", 0, 1, 1), ("race", 0, 0, 0)]
-CMODES = ("default", "succ", "fail", "noop")
+CMODES = ("default", "succ", "fail", "raise", "fireother", "noop")
+RACE_CANCELLER_RAISES = "race-input-canceller-exception-aborts-race"
 _T = {}
 DISTINCT_CAP = 40000   # per shard: keeps the merged hash set small
 
@@ -221,10 +231,33 @@ class Case:
                 if j != i and self.done[j] is None:
                     self.must_cancel.add(j)
                     self.ctx.count("race_stragglers_cancelled")
-                    ok2, tok2 = cancel_outcome(self.case["cmodes"][j], j)
-                    if ok2:
+                    if self.case["cmodes"][j] == "succ":
                         self.ctx.count("canceller_success_after_decided")
-                    self.complete(j, ok2, tok2)
+                    self.cancel_input(j)
+
+    def cancel_input(self, j):
+        """Model of cancel() on the un-fired input j: what its canceller does, then CancelledError if still un-fired."""
+        mode = self.case["cmodes"][j]
+        first = j not in self.canceller_ran
+        self.canceller_ran.add(j)
+        if mode == "raise":
+            # the canceller raises: the input stays un-fired (Deferred.cancel lets the exception out); the
+            # aggregate has to carry on with the others, as DeferredList.cancel documents ("log and continue")
+            self.cancellers_raised.add(j)
+            self.ctx.count("raising_cancellers_invoked")
+            return
+        if mode == "fireother" and first:
+            # the canceller fires ANOTHER input (the lowest un-fired one) re-entrantly and leaves its own alone
+            others = [m for m in range(self.n) if m != j and self.done[m] is None]
+            if others:
+                m = others[0]
+                self.ctx.count("cancellers_firing_another_input")
+                self.complete(m, self.case["ok"][m], ("v", m) if self.case["ok"][m] else ("E", m))
+            if self.done[j] is not None:      # the cascade (race winner rule) already cancelled j itself
+                return
+            return self.complete(j, False, "CANCELLED")
+        ok2, tok2 = cancel_outcome(mode if mode != "fireother" else "default", j)
+        self.complete(j, ok2, tok2)
 
     def run(self):
         tw = _tw()
@@ -235,6 +268,10 @@ class Case:
         self.done = [None] * n
         self.winner_decided = False
         self.must_cancel = set()
+        self.canceller_ran = set()
+        self.forced = None
+        self.cancellers_raised = set()
+        real_ran = set()
         self.agg_seen = []
         self.later = {i: [] for i in range(n)}
         self.ds = []
@@ -247,8 +284,19 @@ class Case:
                 d = In(lambda d: None)
             elif mode == "succ":
                 d = In(lambda d, i=i: d.callback(("cv", i)))
-            else:
+            elif mode == "fail":
                 d = In(lambda d, i=i: d.errback(self.exc(("cE", i))))
+            elif mode == "raise":
+                d = In(lambda d, i=i: self.raise_(Boom(("canceller-raised", i))))
+            else:
+                def fire_other(d, i=i):
+                    if i in real_ran:
+                        return
+                    real_ran.add(i)
+                    others = [m for m in range(n) if m != i and not self.ds[m].called]
+                    if others:
+                        self.fire_real(others[0])
+                d = In(fire_other)
             self.ds.append(d)
         pre = list(case["pre"])
         for i in pre:
@@ -301,6 +349,9 @@ class Case:
         e = self.excs[tag] = Boom(tag)
         return e
 
+    def raise_(self, e):
+        raise e
+
     def fire_real(self, i):
         if self.case["ok"][i]:
             self.ds[i].callback(("v", i))
@@ -309,18 +360,24 @@ class Case:
 
     def do_cancel(self, agg, nprefix):
         ctx = self.ctx
-        decided = spec(self.kind, self.tl, self.n) is not None
+        decided = self.forced is not None or spec(self.kind, self.tl, self.n) is not None
         before = [d.cancel_calls for d in self.ds]
         unfired = [j for j in range(self.n) if self.done[j] is None]
         if not decided:
             for j in unfired:
-                ok2, tok2 = cancel_outcome(self.case["cmodes"][j], j)
-                if self.done[j] is None:   # (race: may have been completed by the nested winner rule)
-                    self.complete(j, ok2, tok2)
+                if self.done[j] is None:   # (may have been completed by a nested rule: race winner, canceller firing it)
+                    self.cancel_input(j)
+            if self.kind[0] == "race" and spec(self.kind, self.tl, self.n) is None:
+                # an input survived its cancellation (canceller raised): race's own Deferred, being cancelled
+                # without a result, fires with CancelledError like any cancelled Deferred
+                self.forced = (len(self.tl), [("failure", "CANCELLED")])
         try:
             agg.cancel()
         except BaseException as e:  # noqa
-            return self.violation("aggregate-cancel-raised", "cancel() of the aggregate raised", error=repr(e)[:200])
+            key = "aggregate-cancel-raised"
+            if self.kind[0] == "race" and self.cancellers_raised and isinstance(e, Boom) and e.tag[0] == "canceller-raised":
+                key = RACE_CANCELLER_RAISES
+            return self.violation(key, "cancel() of the aggregate raised", error=repr(e)[:200])
         if not decided:
             missed = [j for j in unfired if self.ds[j].cancel_calls == before[j]]
             if missed:
@@ -339,13 +396,17 @@ class Case:
             return
         ctx = self.ctx
         ctx.count("step_checks")
-        k, acc = acceptable(self.kind, self.tl, self.n, nprefix)
+        k, acc = self.forced or acceptable(self.kind, self.tl, self.n, nprefix)
         name = {"dl": "deferredlist", "gather": "gatherresults", "race": "race"}[self.kind[0]]
         if k is None:
             if self.agg_seen:
                 self.violation("%s-fired-early" % name, "the aggregate fired before the specification allows (%s)" % when, expected="not fired yet")
             return
         if not self.agg_seen:
+            if self.kind[0] == "race" and self.cancellers_raised:
+                # causal signature: an input's canceller raised while race was cancelling the losers
+                return self.violation(RACE_CANCELLER_RAISES, "race did not fire after an input's canceller raised while the losers were being cancelled (%s)" % when,
+                                      expected=acc, raising_cancellers=sorted(self.cancellers_raised))
             return self.violation("%s-not-fired-when-due" % name, "the aggregate has not fired although the specification says it has (%s)" % when, expected=acc)
         if len(self.agg_seen) > 1:
             return self.violation("%s-fired-more-than-once" % name, "the aggregate's callbacks ran more than once", expected=acc)
@@ -392,7 +453,8 @@ class Case:
         ctx.count("aggregate_firings_checked")
         got = self.agg_seen[0][1]
         ctx.count({"single": "fire_on_one_callback_results", "firsterror": "first_error_results", "barefailure": "first_error_results",
-                   "winner": "race_winner_results", "group": "race_failure_groups", "list": "list_results", "values": "gather_value_results"}[got[0]])
+                   "winner": "race_winner_results", "group": "race_failure_groups", "list": "list_results", "values": "gather_value_results",
+                   "failure": "race_cancelled_with_surviving_input_results"}[got[0]])
         if nprefix > 1 and len(acceptable(self.kind, self.tl, self.n, nprefix)[1]) > 1:
             ctx.count("prefired_tie_cases")
         if self.kind[0] == "race":
@@ -437,7 +499,19 @@ def enumerate_cases(maxn):
                         yield n, list(okbits), list(pre), list(order)
 
 
+def _log_sink(ctx):
+    """DeferredList.cancel logs exceptions of user cancellers: count them (and keep them off stderr)."""
+    from twisted.logger import globalLogBeginner
+
+    def sink(event):
+        if event.get("log_failure") is not None and "user supplied canceller" in str(event.get("log_format", "")):
+            ctx.count("canceller_exceptions_logged_by_deferredlist")
+
+    globalLogBeginner.beginLoggingTo([sink], redirectStandardIO=False, discardBuffer=True)
+
+
 def run(ctx):
+    _log_sink(ctx)
     maxn = 4 if ctx.quick else 5
     k = 0
     for n, ok, pre, order in enumerate_cases(maxn + 1):
@@ -446,20 +520,20 @@ def run(ctx):
             continue
         for kind in KINDS:
             base = {"kind": list(kind), "n": n, "ok": ok, "pre": pre, "order": order}
-            modes = CMODES[:3] if kind[0] == "race" else CMODES[:1]
+            modes = CMODES[:5] if kind[0] == "race" else CMODES[:1]
             for m in modes:   # no injected cancellation
                 c = run_case(ctx, dict(base, cancel_at=[], cmodes=[m] * n))
             if k % 97 == 0:
                 ctx.sample({"case": c.case, "timeline": c.tl, "aggregate": c.agg_seen, "later_callbacks_saw": {str(i): v for i, v in c.later.items()},
                             "cancel_calls": [d.cancel_calls for d in c.ds]}, limit=4)
             for pos in range(len(order) + 1 if n <= maxn else 0):   # n = maxn + 1: without injected cancellation
-                for m in CMODES[:3]:
+                for m in CMODES[:5]:
                     run_case(ctx, dict(base, cancel_at=[pos], cmodes=[m] * n))
     ctx.exhaustive = True
     ctx.seen("kinds", [list(k) for k in KINDS])
     for i in ctx.cases(6000, 300000):
         rng = ctx.case_rng("rand", i)
-        n = rng.randint(2, 12)
+        n = rng.randint(2, 16)
         idx = list(range(n))
         pre = [j for j in idx if rng.random() < rng.choice((0.0, 0.2, 0.6))]
         order = [j for j in idx if j not in pre]
